@@ -85,7 +85,13 @@ fn conc_phase(s: &Scen, out: &mut Vec<String>) -> bool {
         std::thread::spawn(move || {
             sched::reset_thread();
             sched::register(tid);
-            let res: Vec<String> = ops.iter().map(|o| core_op(&sc, o)).collect();
+            let res: Vec<String> = ops
+                .iter()
+                .map(|o| match std::panic::catch_unwind(std::panic::AssertUnwindSafe(|| core_op(&sc, o))) {
+                    Ok(r) => r,
+                    Err(e) => format!("<panic {}>", e.downcast_ref::<String>().cloned().or_else(|| e.downcast_ref::<&str>().map(|s| s.to_string())).unwrap_or_default().replace('\n', " ")),
+                })
+                .collect();
             sched::register(usize::MAX);
             let _ = dtx.send((tid, res));
         });
